@@ -107,6 +107,21 @@ func genC14(seed uint64, tier string) *plan.Plan {
 			}
 		}
 	}
+	if n >= 2 && r.Bool(250) {
+		// for a while one member cannot reach another one (RESP refused or black-holed): a PUBLISH that
+		// cannot be forwarded to a member must fail, not be acknowledged with a smaller count
+		a := r.Intn(n)
+		b := (a + 1 + r.Intn(n-1)) % n
+		p.Cluster.ClientReadTimeoutMs = 300
+		ph.Clients = append(ph.Clients, plan.Script{ID: 50, Kind: "ctl", Ops: []plan.Op{
+			{K: "ctl.sleep", Dur: int64(Pick(r, 1, 5, 20))},
+			{K: "ctl.cut_link", M: a, Count: b, Dur: int64(r.Intn(2))},
+			{K: "ctl.sleep", Dur: int64(Pick(r, 5, 30, 200))},
+			{K: "ctl.heal_all"},
+			// go-redis keeps answering with the last dial error for up to a second after the heal
+			{K: "ctl.sleep", Dur: 1500},
+		}})
+	}
 	// quiescent tail: a last round of messages, then collection and introspection
 	tail := plan.Phase{Name: "tail"}
 	ts := plan.Script{ID: 40, Kind: "ctl"}
@@ -275,6 +290,26 @@ func oracleC14(p *plan.Plan, his []plan.Rec, res *plan.Result) {
 			pubs = append(pubs, &recs[i])
 		}
 	}
+	// link fault window: from the cut to 1.5 s after the heal (dial-error cache of the client library)
+	faultFrom, faultTo := int64(-1), int64(-1)
+	for i := range recs {
+		switch recs[i].Op.K {
+		case "ctl.cut_link":
+			if recs[i].Err == "" {
+				faultFrom = recs[i].TInv
+			}
+		case "ctl.heal_all":
+			faultTo = recs[i].TRet + 1500e6
+		}
+	}
+	// a PUBLISH that ran while the link was cut may have been sent again by the client library after a
+	// time-out: its message may arrive more than once
+	underFault := map[string]bool{}
+	for _, pb := range pubs {
+		if faultFrom >= 0 && pb.TRet >= faultFrom && pb.TInv <= faultTo {
+			underFault[pb.Op.Val] = true
+		}
+	}
 	delivered := map[string]int{} // conn/kind/name/payload -> count
 	for conn, gs := range recv {
 		lastSeq := map[string]string{}
@@ -287,16 +322,23 @@ func oracleC14(p *plan.Plan, his []plan.Rec, res *plan.Result) {
 			// order per publisher, per subscription
 			pub := g.payload[:strings.IndexByte(g.payload+"-", '-')]
 			key := pub + "/" + g.kind + "/" + name + "/" + g.ch
-			if prev, ok := lastSeq[key]; ok && prev >= g.payload && pub != "t" {
+			if prev, ok := lastSeq[key]; ok && prev >= g.payload && pub != "t" && !(prev == g.payload && underFault[g.payload]) {
 				viol(res, "publication-order", fmt.Sprintf("conn%d", conn), "connection %d received %s after %s on %s (%s %s)", conn, g.payload, prev, g.ch, g.kind, name)
 			}
 			lastSeq[key] = g.payload
 		}
 	}
 	for _, pb := range pubs {
+		failedUnderFault := false
 		if pb.Err != "" {
-			viol(res, "publish-failed", errClass(pb.Err), "PUBLISH %s %s via m%d: %s", pb.Op.Key, pb.Op.Val, pb.Op.M, pb.Err)
-			continue
+			if faultFrom >= 0 && pb.TRet >= faultFrom && pb.TInv <= faultTo {
+				// a PUBLISH that could not reach a member reports it; what it delivered before is not judged
+				failedUnderFault = true
+				res.Counters["oracle.publish_failed_under_fault"]++
+			} else {
+				viol(res, "publish-failed", errClass(pb.Err), "PUBLISH %s %s via m%d: %s", pb.Op.Key, pb.Op.Val, pb.Op.M, pb.Err)
+				continue
+			}
 		}
 		must, may := 0, 0
 		type agg struct {
@@ -339,6 +381,10 @@ func oracleC14(p *plan.Plan, his []plan.Rec, res *plan.Result) {
 				kind = "pmessage"
 			}
 			n := delivered[key]
+			if failedUnderFault {
+				delete(delivered, key)
+				continue
+			}
 			if g.certain {
 				must++
 				if connMember[iv.conn] != pb.Op.M || pb.Phase == 0 {
@@ -351,7 +397,7 @@ func oracleC14(p *plan.Plan, his []plan.Rec, res *plan.Result) {
 			if g.possible {
 				may++
 			}
-			if n > 1 {
+			if n > 1 && !underFault[pb.Op.Val] {
 				viol(res, "message-delivered-twice", kind, "%s on %s reached connection %d %d times for its subscription %q", pb.Op.Val, pb.Op.Key, iv.conn, n, iv.name)
 			}
 			if n > 0 && !g.possible {
@@ -359,7 +405,10 @@ func oracleC14(p *plan.Plan, his []plan.Rec, res *plan.Result) {
 			}
 			delete(delivered, key)
 		}
-		if int(pb.Int) < must || int(pb.Int) > may {
+		if failedUnderFault {
+			continue
+		}
+		if int(pb.Int) < must || (int(pb.Int) > may && !underFault[pb.Op.Val]) {
 			viol(res, "publish-count", fmt.Sprintf("ch=%s", pb.Op.Key), "PUBLISH %s %s via m%d returned %d; between %d and %d subscriptions matched during the call", pb.Op.Key, pb.Op.Val, pb.Op.M, pb.Int, must, may)
 		}
 	}
